@@ -59,9 +59,10 @@ class FnTranslator:
     params: [(name, type)], types are coq type names, 'bool', 'option bool', 'option <enum>', 'text'
     """
 
-    def __init__(self, enums, isinstance_preds=None):
+    def __init__(self, enums, isinstance_preds=None, consts=None):
         self.enums = enums
         self.isinst = isinstance_preds or {}
+        self.consts = consts or {}   # module-level names bound once to a literal tuple/list (loops over them are unrolled)
         self.fresh = 0
 
     def gensym(self, base="v"):
@@ -273,10 +274,23 @@ class FnTranslator:
                 env,
                 lambda t, ty: f"(if {self.as_bool(t, ty)}\n then {self.stmts(list(s.body) + rest, env, rty)}\n else {self.stmts(list(s.orelse) + rest, env, rty)})",
             )
+        if isinstance(s, ast.AnnAssign) and isinstance(s.target, ast.Name) and s.value is not None:
+            s = ast.Assign(targets=[s.target], value=s.value)
+        if isinstance(s, ast.For):
+            return self.stmts(self.unroll(s) + rest, env, rty)
+        if isinstance(s, ast.Assign) and len(s.targets) == 1 and isinstance(s.targets[0], ast.Name) and s.targets[0].id not in env:
+            # a local that is not declared up front: bound on this path from here on (the continuation `rest` is translated once per path,
+            # so a read on a path without the assignment is an unknown name and fails closed)
+            name = s.targets[0].id
+
+            def knew(t, ty):
+                env2 = dict(env)
+                env2[name] = ("param", ty)
+                return f"(let {name} := {t} in {self.stmts(rest, env2, rty)})"
+
+            return self.expr(s.value, env, knew)
         if isinstance(s, ast.Assign) and len(s.targets) == 1 and isinstance(s.targets[0], ast.Name):
             name = s.targets[0].id
-            if name not in env:
-                raise Untranslatable(f"assignment to undeclared local {name}")
             kind, ty0 = env[name]
 
             def kas(t, ty):
@@ -288,6 +302,41 @@ class FnTranslator:
 
             return self.expr(s.value, env, kas)
         raise Untranslatable(ast.dump(s))
+
+    def unroll(self, loop):
+        """for <names> in <module constant>: body  ->  the body once per element, the loop variables replaced by the element's literals
+        (no break/continue/else; the elements are literal constants or enum members)"""
+        import copy
+
+        if loop.orelse or any(isinstance(x, (ast.Break, ast.Continue)) for x in ast.walk(loop)):
+            raise Untranslatable("for loop with break/continue/else")
+        if not (isinstance(loop.iter, ast.Name) and loop.iter.id in self.consts):
+            raise Untranslatable("for loop over something else than a module-level literal: " + ast.unparse(loop.iter))
+        seq = self.consts[loop.iter.id]
+        if isinstance(loop.target, ast.Name):
+            names = [loop.target.id]
+        elif isinstance(loop.target, ast.Tuple) and all(isinstance(x, ast.Name) for x in loop.target.elts):
+            names = [x.id for x in loop.target.elts]
+        else:
+            raise Untranslatable("for loop target " + ast.unparse(loop.target))
+        if any(isinstance(x, ast.Name) and isinstance(x.ctx, ast.Store) and x.id in names for b in loop.body for x in ast.walk(b)):
+            raise Untranslatable("loop variable assigned in the loop body")
+        out = []
+        for el in seq.elts:
+            vals = [el] if isinstance(loop.target, ast.Name) else (list(el.elts) if isinstance(el, ast.Tuple) else None)
+            if vals is None or len(vals) != len(names):
+                raise Untranslatable("element of the loop constant does not match the loop target: " + ast.unparse(el))
+            for v in vals:
+                if not (isinstance(v, ast.Constant) or (isinstance(v, ast.Attribute) and isinstance(v.value, ast.Name) and v.value.id in self.enums)):
+                    raise Untranslatable("element of the loop constant is not a literal: " + ast.unparse(v))
+            sub = dict(zip(names, vals))
+
+            class Sub(ast.NodeTransformer):
+                def visit_Name(self, node):  # noqa: N802
+                    return copy.deepcopy(sub[node.id]) if node.id in sub else node
+
+            out += [Sub().visit(copy.deepcopy(b)) for b in loop.body]
+        return out
 
     def function(self, fn, coqname, params, locals_, rty):
         """params/locals_: [(name, type)]"""
